@@ -245,8 +245,33 @@ fn main() {
     // one Generator value shared by every specification (interleaved calls)
     let shared = fastxdr::Generator::default();
 
+    // watchdog: a specification that keeps the library busy for more than LIMIT is recorded as a
+    // time-out (with the stage it was in) and the process exits with status 3; the driver starts
+    // the harness again, which skips the specifications that already have a result
+    const LIMIT: std::time::Duration = std::time::Duration::from_secs(20);
+    let watch: std::sync::Arc<Mutex<Option<(String, &'static str, std::time::Instant)>>> = std::sync::Arc::new(Mutex::new(None));
+    {
+        let watch = watch.clone();
+        let dir = dir.clone();
+        std::thread::spawn(move || loop {
+            std::thread::sleep(std::time::Duration::from_millis(250));
+            let cur = watch.lock().unwrap().clone();
+            if let Some((stem, stage, since)) = cur {
+                if since.elapsed() > LIMIT {
+                    let o = format!("{{\"timeout\":true,\"stage\":\"{}\"}}", stage);
+                    std::fs::write(format!("{}/{}.json", dir, stem), o).unwrap();
+                    std::process::exit(3);
+                }
+            }
+        });
+    }
+
     for n in names {
         let stem = n.trim_end_matches(".x").to_string();
+        if std::path::Path::new(&format!("{}/{}.json", dir, stem)).exists() {
+            continue;
+        }
+        *watch.lock().unwrap() = Some((stem.clone(), "parse", std::time::Instant::now()));
         let raw = std::fs::read(format!("{}/{}", dir, n)).unwrap();
         let text = match String::from_utf8(raw) {
             Ok(t) => t,
@@ -268,6 +293,7 @@ fn main() {
         }
 
         // Ast::new
+        if let Some(w) = watch.lock().unwrap().as_mut() { w.1 = "Ast::new"; }
         let t2 = text.clone();
         let r = panic::catch_unwind(move || Ast::new(&t2));
         match r {
@@ -283,6 +309,7 @@ fn main() {
         }
 
         // generate, two derive lines, each twice on one Generator (repeatability)
+        if let Some(w) = watch.lock().unwrap().as_mut() { w.1 = "generate"; }
         for (key, derive) in [
             ("default", None),
             ("clone", Some("#[derive(Debug, PartialEq, Clone)]")),
@@ -327,6 +354,7 @@ fn main() {
             let _ = write!(o, ",\"shared_same\":{}", same);
         }
         o.push('}');
+        *watch.lock().unwrap() = None;
         std::fs::write(format!("{}/{}.json", dir, stem), o).unwrap();
     }
 }
